@@ -1830,7 +1830,7 @@ class VM:
 
             if isinstance(source, (JSArray, JSTypedArray)):
                 for i in range(source.length):
-                    arr.set_index(offset + i, source.get_index(i))
+                    arr.set_index(offset + i, self._to_number(source.get_index(i)))
             return UNDEFINED
 
         methods = {
@@ -2378,7 +2378,7 @@ class VM:
             try:
                 idx = int(key_str)
                 if idx >= 0:
-                    obj.set_index(idx, value)
+                    obj.set_index(idx, self._to_number(value))
                     return
             except ValueError:
                 pass
